@@ -397,6 +397,9 @@ class CancelScope(AbstractCancelScope):
 
     @classmethod
     def _is_task_polling(cls, task: asyncio.Task[Any]) -> bool:
+        if task in cls.__delayed_task_cancel_dict or cls.__task_must_cancel(task):
+            # A (postponed) cancellation is about to be delivered.
+            return False
         for scope in cls._inner_to_outer_task_scopes(task):
             if scope.__cancel_called:
                 # No cancellation has been requested since the scope was entered
